@@ -53,7 +53,7 @@ def malformed_stream(rnd, tier, per_seed=10):
     non byte-aligned lengths, random strings"""
     cases = []
     T = tier == 'thorough'
-    nseed = 800 if T else 80
+    nseed = 1600 if T else 160
     CONFIGS = ALL_STACKS + ['CoAP-semantic']
     for i in range(nseed):
         stack = CONFIGS[i % len(CONFIGS)]
